@@ -98,6 +98,7 @@ def jobs(tier):
     J = [
         rjob('read_1seg', timeout=T, desc='one read, one segment: count and bytes equal the source, media invariant, pages cached, nothing left locked / allocated'),
         rjob('read_1seg_3pages', srcmax=12, timeout=T, desc='same, three pages'),
+        rjob('read_1seg_span3', srcmax=12, segmax=8, timeout=T, desc='one read, one segment of 0..8 bytes over three pages: the request can span a cached head, an uncached page and a cached tail'),
         rjob('read_1seg_faults', faults=1, timeout=T, desc='one read, one segment, symbolic source / media / query / allocator / fstat faults: -1 or a correct prefix, never wrong bytes'),
         rjob('read_2seg_short', niov=2, segmax=2, timeout=T, desc='one read, two segments of 0..2 bytes'),
         rjob('prefetch', entry='harness_prefetch', timeout=T, desc='prefetch -> do_prefetch -> try_refill_range -> do_refill_range without a caller buffer'),
